@@ -57,6 +57,7 @@ CORE3, CORE4, CORE5 = mc("MC_Core_d3"), mc("MC_Core_d4"), mc("MC_Core_d5")
 SEED1, SEED2, SEED3 = mc("MC_Seeded_d1"), mc("MC_Seeded_d2"), mc("MC_Seeded_d3")
 FAIL2, FAILP, SIZES2, IDX1 = mc("MC_Fail_d2"), mc("MC_Fail2_d2"), mc("MC_Sizes_d2"), mc("MC_Idx_d1")
 FINAL2, SHRINK2, PAIRS2, CORE3H = mc("MC_Final_d2"), mc("MC_Shrink_d2"), mc("MC_Pairs_d2"), mc("MC_Core3_d4")
+SEED3H = mc("MC_Seeded3_d2")     # three handles, all ops incl. decoders and compare, seeds with three holders of one buffer
 CONV, PROOF, SCALE = {"kind": "conv"}, {"kind": "proof"}, {"kind": "scale"}
 # TLC simulation mode: random walks of depth 30 over the widest alphabet (3 handles, failures, panics, decoders);
 # TLC evaluates every enabled transition of every visited state, and every one of those is replayed
@@ -75,8 +76,8 @@ def matrix(stages):
 
 PROFILES = {
     "C01": {"quick": [CORE4, SEED2, SCALE, dq("mixed")], "thorough": [CORE5, SEED3, CORE3H, FINAL2, SIM, SCALE, dt("mixed"), dt("all")]},
-    "C02": {"quick": [CORE3, SEED2, FAIL2, SIZES2, dq("all")], "thorough": [CORE4, SEED3, CORE3H, FAILP, SIZES2, SIM, PROOF, dt("all")]},
-    "C03": {"quick": [CORE3, SEED2, FAIL2, PROOF, dq("all")], "thorough": [CORE4, SEED3, CORE3H, FAILP, SIZES2, SIM, PROOF, dt("all")]},
+    "C02": {"quick": [CORE3, SEED2, FAIL2, SIZES2, dq("all")], "thorough": [CORE4, SEED3, CORE3H, SEED3H, FAILP, SIZES2, SIM, PROOF, dt("all")]},
+    "C03": {"quick": [CORE3, SEED2, FAIL2, PROOF, dq("all")], "thorough": [CORE4, SEED3, CORE3H, SEED3H, FAILP, SIZES2, SIM, PROOF, dt("all")]},
     "C04": {"quick": [conc("own2", "{1,2}", "cQuick2", sample_every=40), conc("lend3", "{1,2,3}", "cLend2", sample_every=40)],
             "thorough": [conc("own2", "{1,2}", "cQuick2", sample_every=10), conc("lend3", "{1,2,3}", "cLend2", sample_every=10), conc("own3", "{1,2,3}", "cOwn3", sample_every=40), conc("deep2", "{1,2}", "cDeep2", sample_every=200, workers=14)]},
     "C05": {"quick": [FAIL2, dq("fail")], "thorough": [FAILP, SEED2, dt("fail")]},
